@@ -2,7 +2,7 @@
    vote is the weighted majority with ties to the value seen first; a supplied dialect is used
    verbatim; the format decides the importer.  Statements only; every proof is `exact`. *)
 From GV Require Import Base.Prelude Base.PyStr Base.Utf8 Base.WordTable Model.DB Model.Parser Model.Grammar Model.Dialect
-  Proofs.C07Parse Proofs.C07Proofs Proofs.C09Proofs.
+  Model.Json Proofs.C07Parse Proofs.C07Proofs Proofs.C09Proofs Proofs.JsonProofs.
 Open Scope N_scope.
 
 (* one line: the inferred dialect is the canonical dialect of the style the line was written in:
@@ -81,3 +81,9 @@ Print Assumptions C09_route_gff.
 Theorem C09_route_gtf : forall force D, route force D = Ok ImpGTF <-> (force = false /\ d_fmt D = GTF).
 Proof. exact l_route_gtf. Qed.
 Print Assumptions C09_route_gtf.
+
+(* FeatureDB.dialect: the dialect dictionary written to the meta table as JSON text reads back as the same dialect
+   (booleans, separators, format and key order) *)
+Theorem C09_dialect_persists : forall d, dialect_ok d -> loads_dialect (dumps_dialect d) = Some d.
+Proof. exact l_dialect_roundtrip. Qed.
+Print Assumptions C09_dialect_persists.
